@@ -71,3 +71,12 @@ Proof.
     by (vm_compute; reflexivity).
   rewrite E in H. inversion H as [|? ? Hn _]. apply Hn. simpl. auto.
 Qed.
+
+(* C09 (repaired by a fix: commit): PuLP lists variables sorted by name as text, so with more than
+   ten alternatives the value vector read positionally credits x10 to alternative 2, x2 to 4, ... *)
+From SKC Require Import Model.Simus.
+Theorem credit_sorted_refuted :
+  exists vals, credit_sorted vals <> credit_by_index vals.
+Proof.
+  exists (map (fun k => inject_Z (Z.of_nat k)) (seq 0 12)). vm_compute. discriminate.
+Qed.
